@@ -221,13 +221,13 @@ TRUSTED = [
     "segment is an explicit input; float seconds are compared as integer nanoseconds (SyncPeriodic intervals chosen off the time grid)",
 ]
 
-PROOF_FILES = ["C14/Model.v", "C14/LsmProofs.v", "C14/SeqProofs.v", "C15/Model.v", "C15/Proofs.v", "C15/Props.v"]
+PROOF_FILES = ["C14/Model.v", "C14/LsmProofs.v", "C14/SeqProofs.v", "C15/Model.v", "C15/Proofs.v", "C15/RestProofs.v", "C15/Props.v"]
 
 
 def run(ctx):
     from concurrent.futures import ThreadPoolExecutor
     ctx.prove(PROOF_FILES, allowed_axioms=(), trusted_base=TRUSTED)
-    n = ctx.n(60, 1500)
+    n = ctx.n(60, 400)
     with ThreadPoolExecutor(max_workers=2) as pool:
         pre = Pre(ctx, FAMILIES[0], n, pool, pool_above=20)
         stats = [run_family(pre, pre.fam, n)]
